@@ -19,6 +19,7 @@ LEVEL_TEXT = (
     'require refusing get their OPEN error subcode.'
     " Wide configurations (12-21 families, long names) make ExaBGP's own OPEN use the RFC 9072 form; `local-as auto` neighbors."
     ' A quarter of the plans run a second neighbor with the other ADD-PATH setting in the same process, its sessions interleaved with the first.'
+    ' The helper is shown packets/open in 40 % of the plans (events rendered before the negotiation completes).'
 )
 LEVEL_NOTE = 'trusts: the reference negotiation function and OPEN codec in this file / refbgp; where only one side sent no MP capability at all the families comparison is skipped (arguable RFC default)'
 DESIGN_REF = 'DESIGN.md section 5, C07'
